@@ -26,7 +26,7 @@ watchdog timeout, so a runaway thread or a bug in this file also becomes an obse
 from __future__ import print_function
 import sys, types, threading as _th, struct as _struct, time as _time
 
-WATCHDOG = 5.0       # seconds a thread waits for the baton before the schedule is declared hung
+WATCHDOG = 20.0       # seconds a thread waits for the baton before the schedule is declared hung
 
 # operation kinds (same numbering as op_of_mpc / op_of_ppc in Check.v)
 OPS = ["acquire", "release", "ev_set", "ev_clear", "ev_is_set", "ev_wait", "halting_read",
